@@ -147,7 +147,7 @@ SW_OP(byteswap, bswap, false) SW_OP(countl_sign, cls, false)
 
 template<class V> void sweep_all(const char*, std::false_type) {}
 template<class V> void sweep_all(const char* type, std::true_type) {
-    if (!opt().thorough) return;
+    if (!opt().sweep) return;
     // cross-check of the fast models against the bit-loop models
     if (begin_cell("C06", type, "fast_model_selfcheck")) {
         Cell& c = cell();
@@ -304,7 +304,7 @@ SC_SW(countr_one, cto, false) SC_SW(bit_width, width, false) SC_SW(bit_floor, fl
 SC_SW(byteswap, bswap, false) SC_SW(countl_sign, cls, false)
 template<class T> void scalar_sweeps(const char*, std::false_type) {}
 template<class T> void scalar_sweeps(const char* type, std::true_type) {
-    if (!opt().thorough) return;
+    if (!opt().sweep) return;
 #define SCSWR(NAME) scsw_##NAME<T>(type, hassc_##NAME<T>());
     SCSWR(popcount) SCSWR(countl_zero) SCSWR(countl_one) SCSWR(countr_zero) SCSWR(countr_one) SCSWR(bit_width) SCSWR(bit_floor) SCSWR(bit_ceil) SCSWR(byteswap) SCSWR(countl_sign)
 }
